@@ -23,6 +23,14 @@ EXTRA = {
  "C08d-regcache-fill-under-rlock": ["C11"], "C14d-lexer-shared-scratch": ["C11"], "C07d-calls-leak-on-depth-error": ["C08"], "C08d-calls-leak-on-panic": ["C07"],
  "C06d-scope-store-recycled": ["C07"], "C07d-scope-store-recycled": ["C06"], "C12d-fold-across-ternary-join": ["C03"], "C03d-jump-fold-reads-previous-byte": ["C02"],
  "C02d-dead-else-peeks-three-bytes": ["C03"], "C13d-prepare-keeps-truncated-tree": ["C19"], "C04d-shared-map-visited-set": ["C19"], "C19d-shared-map-visited-set": ["C04"],
+ # round 5
+ "C19e-fields-kept-for-same-pointer": ["C07", "C04"], "C19e-float-hashkey-memo-copied": ["C16"], "C17e-sorted-array-keeps-cached-text": [], "C10e-zone-argument-reads-files": ["C17"],
+ "C04e-convert-mark-leaks-on-panic": ["C07"], "C04e-fields-kept-after-runaway-recursion": ["C07"], "C05e-fields-kept-for-nil-object": ["C07", "C04"], "C05e-placeholders-dropped-second-round": ["C03"],
+ "C14e-regexp-cache-stale-key-on-eviction": [], "C16e-reverse-flips-sorted-input": ["C17"], "C01e-fields-kept-for-same-object": ["C04", "C07"], "C01e-float-key-after-step": ["C16"],
+ "C01e-string-index-invalid-utf8": ["C16"], "C18e-lastop-nested-definition": ["C06"], "C18e-prepare-again-reuses-compacted-code": ["C19"], "C02e-fields-kept-for-same-object": ["C04", "C07"], "C02e-foreach-after-join": ["C16"],
+ "C20e-run-nil-without-program": ["C08"], "C07e-context-poll-phase-64": ["C09"], "C06e-lastop-nested-definition": ["C18"], "C06e-unwind-closes-half": ["C07"], "C06e-calls-counter-leaks-on-arity-error": ["C07"],
+ "C15e-stepped-memo-survives-run": [], "C08e-panic-nil": ["C20"], "C08e-convert-mark-leaks-on-panic": ["C07"], "C08e-run-nil-without-program": ["C20"],
+ "C03e-jump-fold-reads-operand-byte-12-13": ["C05"], "C03e-field-cache-kept-when-main-has-no-lookup": ["C07"], "C03e-old-header-over-compacted-code": ["C18"], "C12e-slash-after-rsquare-table": ["C14"], "C12e-ternary-flag-sticks-after-function": ["C06"],
  "C06d-user-function-before-builtin": ["C20"], "C18d-deadcode-past-jump": ["C03"], "C08c-calls-leak-on-error": ["C07"], "C19c-integer-key-order-cycle": ["C16"], "C06b-stale-lastop": ["C18"], "C07b-fields-survive-nil-object": ["C04"], "C04b-shared-map-converted-once": ["C07"],
 }
 pref = sys.argv[1] if len(sys.argv) > 1 else ""
